@@ -28,7 +28,8 @@ def need(key, minimum=1):
       "length 4..12 over {00,ff,a,%}) through URL/Base64/hex encode -> format oracle -> in-place decode; decoder "
       "acceptance of all %hh spellings; all query-string pair lists over {a,SP,&,=,%,+,LF,0x80}^{0..2}. "
       "non-trivial = needs an escape or Base64 padding, or a non-empty pair list",
-      ["independent Base64 encoder and URL literal-set rule in the harness are the format references"],
+      ["also: re-entrancy - every pair of calls of a menu run by two threads on private arguments under the E2 scheduler (scheduling points at read()); results equal the results of the calls made alone (asan flavour), no data race report (tsan flavour, scheduler invisible)",
+       "independent Base64 encoder and URL literal-set rule in the harness are the format references"],
       [need("evaluations", 1000000), need("nontrivial", 1000)])
 def c16(tier, seed):
     H = ["inputmc/c16.c"]
@@ -80,7 +81,8 @@ def mtpure_jobs(fam):
       "qhashmd5_file with read()/fstat() wrapped: every plan of <= 2 (thorough 3) deviating answers (1-byte read, half read, "
       "EIO, EINTR, truncated file, fstat failure) - short reads must still give the RFC digest, a failed call never true. "
       "non-trivial = contains a NUL byte or is longer than one byte",
-      ["reference implementations in engines/inputmc/c18.c, anchored at start-up on RFC 1321 / MurmurHash3 / FNV published vectors",
+      ["also: re-entrancy - every pair of calls of a menu run by two threads on private arguments under the E2 scheduler (scheduling points at read()); results equal the results of the calls made alone (asan flavour), no data race report (tsan flavour, scheduler invisible)",
+       "reference implementations in engines/inputmc/c18.c, anchored at start-up on RFC 1321 / MurmurHash3 / FNV published vectors",
        "little-endian host"],
       [need("evaluations", 1000000), need("env_plans_2_deviations", 100), forbid("anchor_fail")],
       classes=["md5*", "murmur3*", "fnv1*", "asan:*"])
@@ -108,7 +110,8 @@ def c18(tier, seed):
       "every size 1..n+2, every nbytes 0..n, overlapping src/dst at every offset; qstrtok/qstrtokenizer over "
       "{a,b,:,,}^<=6 x 3 delimiter sets; qstrgets over {a,b,LF,CR}^<=6 x size 2..9,32; rev/upper/lower over 10 boundary "
       "bytes ^<=4; qstrdup_between/qmemdup. non-trivial = the routine had something to change/split/truncate",
-      ["one-line reference definitions in engines/inputmc/c19.c", "a final empty token after a trailing delimiter may or may not be reported (documentation silent)"],
+      ["also: re-entrancy - every pair of calls of a menu run by two threads on private arguments under the E2 scheduler (scheduling points at read()); results equal the results of the calls made alone (asan flavour), no data race report (tsan flavour, scheduler invisible)",
+       "one-line reference definitions in engines/inputmc/c19.c", "a final empty token after a trailing delimiter may or may not be reported (documentation silent)"],
       [need("evaluations", 100000), need("nontrivial", 10000)])
 def c19(tier, seed):
     H = ["inputmc/c19.c"]
@@ -135,7 +138,8 @@ def acdeep_jobs(tier):
       "L=5, Apache 14 tokens incl. quotes, backslash, < </ > # LF L=5 x 2 flag sets, and over-long lines around the "
       "4096/8192 fgets boundary (thorough: L+1), and Apache documents of d nested sections for every d = 1..300 (600) and 400..20000. Oracle: no ASan/UBSan report, no crash, no hang (allocation budget + "
       "CPU watchdog), decoders never grow the string. non-trivial = non-empty / contains a structural token",
-      ["popen is wrapped to fail (${!cmd} never executes)", "self-including files (@INCLUDE of the file itself) are outside the bound"],
+      ["also: re-entrancy - every pair of calls of a menu run by two threads on private arguments under the E2 scheduler (scheduling points at read()); results equal the results of the calls made alone (asan flavour), no data race report (tsan flavour, scheduler invisible)",
+       "popen is wrapped to fail (${!cmd} never executes)", "self-including files (@INCLUDE of the file itself) are outside the bound"],
       [need("evaluations", 1000000)])
 def c17(tier, seed):
     H = ["inputmc/c17.c"]
@@ -169,7 +173,8 @@ def c17(tier, seed):
       "(iv) d nested sections for every d = 1..300 (600): level == number of parents, beyond 255 only a refusal naming line 256; "
       "INI files with <= 3 (4) lines over four include directives whose file names are prefixes of each other and values containing directive text. "
       "non-trivial = contains a reference/section, an accepted typed directive, a quoted argument, or a section",
-      ["the generator's meaning of each document is the oracle", "popen wrapped to fail", "count of ignored unknown directives: either convention accepted",
+      ["also: re-entrancy - every pair of calls of a menu run by two threads on private arguments under the E2 scheduler (scheduling points at read()); results equal the results of the calls made alone (asan flavour), no data race report (tsan flavour, scheduler invisible)",
+       "the generator's meaning of each document is the oracle", "popen wrapped to fail", "count of ignored unknown directives: either convention accepted",
        "float syntax = digits with one inner dot (as the source documents); '1.' and '.5' are not floats"],
       [need("evaluations", 100000), need("nontrivial", 10000)])
 def c20(tier, seed):
@@ -250,7 +255,9 @@ def tree_jobs(tier, which):
       "up to 3 value versions (1 byte, 4 bytes with embedded+trailing NUL, empty); from every state every operation, then get "
       "of every universe key (both newmem modes, errno), size, find_min, find_max against a sorted-array model. "
       "A state is non-trivial when its canonical (shape, colour, key, value) string is new",
-      ["reference ordering and sorted-array model in engines/seqmc/tree.c", "every transition is an execution of the real code: traces_validated_against_impl = transitions"],
+      ["also: histories without merging - from a non-initial state every sequence of <= 3 (thorough 4) operations, reads included as operations, the last one with all oracles (hidden state the canonical key cannot contain)",
+       "put of a value size no allocator can satisfy as an operation (a failed put leaves map and tree as they were)",
+       "reference ordering and sorted-array model in engines/seqmc/tree.c", "every transition is an execution of the real code: traces_validated_against_impl = transitions"],
       [need("states", 1000), need("transitions", 10000), forbid("replay_divergence")], classes=["map:*", "fmt:*"])
 def c01(tier, seed):
     return tree_jobs(tier, "map")
@@ -261,7 +268,9 @@ def c01(tier, seed):
       "independent checker walks the public node fields: BST order under the table's ordering, black root, no red-red, equal "
       "black height, no right-leaning lone red link, node count = size(); qtreetbl_check() must agree; with user comparators "
       "every lookup is charged and must stay within 2*log2(n+1) comparisons",
-      ["independent structure checker in engines/seqmc/tree.c"],
+      ["also: histories without merging - from a non-initial state every sequence of <= 3 (thorough 4) operations, reads included as operations, the last one with all oracles (hidden state the canonical key cannot contain)",
+       "put of a value size no allocator can satisfy as an operation: 'after every operation, whether it succeeded or failed'",
+       "independent structure checker in engines/seqmc/tree.c"],
       [need("states", 1000), need("structure_checks", 10000), need("rotate_left"), need("rotate_right"), need("flip_color"),
        need("fournode_states"), need("lookup_cost_checks", 1000), forbid("replay_divergence")], classes=["llrb:*"])
 def c02(tier, seed):
@@ -317,7 +326,9 @@ def hashtbl_jobs(tier):
       "string keys incl. the empty key (6 in thorough) and 3-4 value versions (two byte values of equal length that agree up to an embedded NUL, string, integer), for "
       "ranges 1, 2, 3 (5) and the default 1000; canonical state = ordered chain of every slot. After every transition: get "
       "(both newmem), getstr, getint, size, errno, and complete getnext walks in both newmem modes against a map model",
-      ["map model in engines/seqmc/hashtbl.c; slot prediction by an independent MurmurHash3"],
+      ["also: histories without merging - from a non-initial state every sequence of <= 3 (thorough 4) operations, reads included as operations, the last one with all oracles (hidden state the canonical key cannot contain)",
+       "value universe with a value of length 0 (valid pointer, size 0); put of an unallocatable value size as an operation",
+       "map model in engines/seqmc/hashtbl.c; slot prediction by an independent MurmurHash3"],
       [need("states", 500), need("unlink_head"), need("unlink_middle"), need("unlink_tail"), need("max_chain", 3), forbid("replay_divergence")],
       classes=["map:*", "walk:*", "fmt:*"])
 def c05(tier, seed):
@@ -351,7 +362,8 @@ def listtbl_jobs(tier):
       "get (both newmem), getstr, getint, getmulti(+freemulti), name-filtered and unfiltered getnext walks for every name "
       "spelling, size, link structure, and save(encode)/load into fresh tables (same options, and appending); plus the "
       "value dimension of save/load: every string of length 0..3 over 16 significant bytes, alone and beside a second entry",
-      ["ordered-multimap model in engines/seqmc/listtbl.c", "load is checked against 'put every saved line in file order into a table with the loader's options'; "
+      ["also: histories without merging - from a non-initial state every sequence of <= 3 (thorough 4) operations, reads included as operations, the last one with all oracles (hidden state the canonical key cannot contain)",
+       "ordered-multimap model in engines/seqmc/listtbl.c", "load is checked against 'put every saved line in file order into a table with the loader's options'; "
        "for an appending loader that is the saved order"],
       [need("states", 1000), need("saveload_roundtrips", 1000), forbid("replay_divergence")],
       classes=["multimap:*", "saveload:*", "list:*", "fmt:*"])
@@ -379,7 +391,9 @@ def list_jobs(tier):
       "datasize, toarray, tostring, getnext walks, link structure, and 'refused => nothing changed'. Queue, stack and grow "
       "buffer: the same search through push/pushstr/pushint, pop/popstr/popint/popat, get*/getat, setsize, clear and "
       "add/addstr/addstrf, toarray, tostring, size, datasize, clear (FIFO / LIFO / concatenation models)",
-      ["sequence models in engines/seqmc/list.c and qsg.c"],
+      ["also: histories without merging - from a non-initial state every sequence of <= 3 (thorough 4) operations, reads included as operations, the last one with all oracles (hidden state the canonical key cannot contain)",
+       "formatted pieces of every length 0..1100",
+       "sequence models in engines/seqmc/list.c and qsg.c"],
       [need("states", 1000), forbid("replay_divergence")], classes=["seq:*", "fmt:*"])
 def c09(tier, seed):
     return list_jobs(tier)
@@ -408,7 +422,9 @@ def vector_jobs(tier):
       "addat/setat/popat/removeat for every index in [-n-2, n+2] and the first/last variants, reverse, resize(0..n+2), resize and constructor with capacities SIZE_MAX/objsize+1, +2 and SIZE_MAX (refused, nothing changed), clear; "
       "after every transition getat of every index (both newmem), getfirst/getlast, size, toarray, getnext walks, "
       "capacity >= count, errno of refusals, 'refused => unchanged'. Canonical state = (capacity, contents)",
-      ["array model in engines/seqmc/vector.c; the model does not predict the capacity, only capacity >= count"],
+      ["also: histories without merging - from a non-initial state every sequence of <= 3 (thorough 4) operations, reads included as operations, the last one with all oracles (hidden state the canonical key cannot contain)",
+       "element sizes on both sides of 16/32/64",
+       "array model in engines/seqmc/vector.c; the model does not predict the capacity, only capacity >= count"],
       [need("states", 1000), need("capacity_growths", 100), need("resize_to_zero", 100), forbid("replay_divergence")], classes=["array:*"])
 def c10(tier, seed):
     return vector_jobs(tier)
@@ -456,7 +472,8 @@ def c06(tier, seed):
       "single ownership of every slot and header counters after every operation; (d) every transition is repeated from an "
       "image whose unused bytes are 0xFF instead of 0 and must give the same result and canonical successor; (e) guard "
       "bytes in front of the region and the ASan red zone behind it catch any write outside",
-      ["cross-process sharing is simulated by byte copies and extra handles in one process"],
+      ["the observe-only relocated copy is placed at every alignment 0..7",
+       "cross-process sharing is simulated by byte copies and extra handles in one process"],
       [need("states", 5000), need("wellformed_checks", 10000), need("residue_differentials", 10000), need("relocations"), need("promotions")],
       classes=["image:*", "guard:*"])
 def c07(tier, seed):
@@ -654,7 +671,7 @@ ENGINES = [
      "kind_free_text": "explicit-state BFS over qhasharr memory images restored by memcpy at a different address before every transition"},
     {"name": "faultenum", "path": "engines/faultenum", "serves_properties": ["C14", "C15"],
      "kind_free_text": "exhaustive enumeration of (state, operation, entry lock depth, allocation-fault plan) with a differential oracle against fault-free runs and pthread-level lock-depth tracking"},
-    {"name": "sched", "path": "engines/sched", "serves_properties": ["C13"],
+    {"name": "sched", "path": "engines/sched", "serves_properties": ["C13", "C14", "C16", "C17", "C18", "C19", "C20"],
      "kind_free_text": "stateless DFS over thread schedules with a preemption bound; real pthreads serialised by a raw-futex hand-off scheduler injected at the library's lock operations via --wrap; brute-force linearizability checker; TSan pass under the same scheduler"},
     {"name": "inputmc", "path": "engines/inputmc", "serves_properties": ["C16", "C17", "C18", "C19", "C20"],
      "kind_free_text": "bounded-exhaustive input enumeration against independent references, ASan/UBSan as oracle"},
